@@ -211,7 +211,10 @@ func checkPipeline(t *vk.T, c *gj5s.Case) {
 		if g.Request.GetBody() != nil {
 			body = names(g.Request.Body.Properties)
 		}
-		if fmt.Sprint(names(g.Request.GetPathParameters())) != fmt.Sprint(w.pathParams) || fmt.Sprint(names(g.Request.GetQueryParameters())) != fmt.Sprint(w.query) || fmt.Sprint(body) != fmt.Sprint(w.body) {
+		same := func(got, raw, flat []string) bool {
+			return fmt.Sprint(got) == fmt.Sprint(raw) || (flat != nil && fmt.Sprint(got) == fmt.Sprint(flat))
+		}
+		if fmt.Sprint(names(g.Request.GetPathParameters())) != fmt.Sprint(w.pathParams) || !same(names(g.Request.GetQueryParameters()), w.query, w.queryFlat) || !same(body, w.body, w.bodyFlat) {
 			t.Violation("request-split|verb="+w.verb+"|"+fam, fmt.Sprintf("method %s (%s %s): path / query / body expected %v / %v / %v, got %v / %v / %v\n%s", k, w.verb, w.path, w.pathParams, w.query, w.body, names(g.Request.GetPathParameters()), names(g.Request.GetQueryParameters()), body, src), src, nil, nil)
 			return
 		}
@@ -347,6 +350,28 @@ func checkPipeline(t *vk.T, c *gj5s.Case) {
 type wantMethod struct {
 	verb, path              string
 	pathParams, query, body []string
+	// the same lists with flattened request fields replaced by their members: the statement does
+	// not say which of the two a client sees, either is accepted per position
+	queryFlat, bodyFlat []string
+}
+
+// flatNames: the member names a flattened field contributes (recursively), or its own name.
+func flatNames(f *gj5s.Field) []string {
+	if !f.Flatten || f.T == nil || f.T.K != gj5s.TObject {
+		return []string{f.Name}
+	}
+	d := f.T.Inline
+	if f.T.Ref != nil {
+		d = f.T.Ref.To
+	}
+	if d == nil {
+		return []string{f.Name}
+	}
+	var out []string
+	for _, m := range d.Fields {
+		out = append(out, flatNames(m)...)
+	}
+	return out
 }
 
 func expectedMethods(p *gj5s.Program) map[string]*wantMethod {
@@ -369,13 +394,17 @@ func expectedMethods(p *gj5s.Program) map[string]*wantMethod {
 					w.pathParams = append(w.pathParams, f.Name)
 				case w.verb == "GET":
 					w.query = append(w.query, f.Name)
+					w.queryFlat = append(w.queryFlat, flatNames(f)...)
 				default:
 					w.body = append(w.body, f.Name)
+					w.bodyFlat = append(w.bodyFlat, flatNames(f)...)
 				}
 			}
 			sort.Strings(w.pathParams)
 			sort.Strings(w.query)
 			sort.Strings(w.body)
+			sort.Strings(w.queryFlat)
+			sort.Strings(w.bodyFlat)
 			out[pkg+"/"+svcName+"/"+m.Name] = w
 		}
 	}
